@@ -44,6 +44,50 @@ def gen_core(repo):
     return "\n".join(out) + "\n"
 
 
+SUB = "tracing-subscriber/src/subscribe/mod.rs"
+SUB_COMBINATORS = ["and_then", "with_collector", "with_filter", "boxed"]   # constructors, not notifications
+HDR = "#[kani::proof]\n#[kani::unwind(22)]\n#[kani::stub(core::fmt::Formatter::pad, pad_stub)]\n"
+SUB_WRAPPERS = [
+    ("box", "one", "let mut w: Box<RecS> = Box::new(RecS { i: 0, c });"),
+    ("box_dyn", "one", "let mut w: Box<dyn Subscribe<Root> + Send + Sync + 'static> = Box::new(RecS { i: 0, c });"),
+    ("some", "one", "let mut w: Option<RecS> = Some(RecS { i: 0, c });"),
+    ("vec1", "one", "let mut w: Vec<RecS> = vec![RecS { i: 0, c }];"),
+    ("reload", "one", "let (mut w, _h) = reload::Subscriber::new(RecS { i: 0, c });"),
+    ("none", "absent", "let mut w: Option<RecS> = None;"),
+    ("vec0", "absent", "let mut w: Vec<RecS> = Vec::new();"),
+    ("identity", "absent", "let mut w = Identity::new();"),
+    ("vec2", "vec2", "let mut w: Vec<RecS> = vec![RecS { i: 0, c }, RecS { i: 1, c }];"),
+]
+FIL_WRAPPERS = [
+    ("box_dyn", "one", "let w: Box<dyn Filter<Root> + Send + Sync + 'static> = Box::new(RecF { i: 0, c });"),
+    ("arc_dyn", "one", "let w: std::sync::Arc<dyn Filter<Root> + Send + Sync + 'static> = std::sync::Arc::new(RecF { i: 0, c });"),
+    ("some", "one", "let w: Option<RecF> = Some(RecF { i: 0, c });"),
+    ("reload", "one", "let (w, _h) = reload::Subscriber::new(RecF { i: 0, c });"),
+    ("none", "absent", "let w: Option<RecF> = None;"),
+]
+LAYERED_SUB_METHODS = ["on_register_dispatch", "on_subscribe", "on_new_span", "on_record", "on_follows_from", "on_event", "on_enter", "on_exit", "on_close", "on_id_change"]
+
+
+def gen_sub(repo):
+    sm = [m for m in trait_methods(repo, SUB, r"^pub trait Subscribe<") if m not in SUB_COMBINATORS]
+    fm = [m for m in trait_methods(repo, SUB, r"^pub trait Filter<") ]
+    out = ["\n// ---- generated: %d Subscribe methods x %d wrappers, %d Filter methods x %d wrappers ----" % (len(sm), len(SUB_WRAPPERS), len(fm), len(FIL_WRAPPERS))]
+    for wn, exp, mk in SUB_WRAPPERS:
+        for m in sm:
+            if wn == "reload" and m == "downcast_raw":
+                continue   # documented exception: a reload handle refuses downcasts (pointer would dangle after a reload)
+            bound = "// BOUND: Vec of exactly 2 layers\n" if wn == "vec2" else ""
+            out.append(bound + HDR + "fn c09_sub_%s_%s() { let c = Cfg::any(); %s reset(); scell!(%s, w, c, %s); }" % (wn, m, mk, m, exp))
+    for wn, exp, mk in FIL_WRAPPERS:
+        for m in fm:
+            out.append(HDR + "fn c09_filter_%s_%s() { let c = Cfg::any(); %s reset(); fcell!(%s, w, c, %s); }" % (wn, m, mk, m, exp))
+    # every span/event notification of trait Subscribe must have a Layered ordering cell
+    notif = [m for m in sm if m.startswith("on_")]
+    for m in notif:
+        out.append(HDR + "fn c09_layered_sub_%s() { let c0 = Cfg::any(); let c1 = Cfg::any(); let mut w = lsub!(c0, c1); reset(); lcell_sub!(%s, w); }" % (m, m))
+    return "\n".join(out) + "\n"
+
+
 PLAN = dict(
     id="C09",
     level="proof",
@@ -53,6 +97,10 @@ PLAN = dict(
         modules=[dict(name="__verif_c09", attach="lib",
                       files=["../common/core_prelude.rs", "../common/core_stub.rs", "core_matrix.kani.rs"], generator="gen_core")],
         append=[dict(file="tracing-core/src/dispatch.rs", text=_m.DISPATCH_HELPER, kind="cfg(kani) constructor helper")],
+    ), dict(
+        crate="tracing-subscriber", tls_shim_crates=["tracing-core", "tracing-subscriber"], once_cell_stub=True, tag="sub",
+        modules=[dict(name="__verif_c09", attach="inline", file=SUB, modpath="subscribe",
+                      files=["sub_matrix.kani.rs", "layered_collect.kani.rs"], generator="gen_sub")],
     )],
     manifest=dict(technique="x", text="x", note="x"),
 )
